@@ -49,6 +49,7 @@ type Val struct {
 	Map    *SMap
 	Fun    *Fun
 	Lit    *Val
+	Bracket bool // written with [ ] in the source
 	Pos    *Pos
 }
 
